@@ -68,6 +68,10 @@ type instance struct {
 	buf     *bytes.Buffer // when non-nil, lines are buffered here (submission in progress)
 	subFaults []fault     // faults consumed by the operations of the submission in progress
 	nfaults int           // operations that were made to fail so far
+	seqGid  int64         // goroutine id of this instance's RunSequencer (0 before it started)
+	subGid  int64         // goroutine id of the submitter whose operations are being collected
+	holdIssuer bool       // stop the next submitter inside its issuer upload until cleared
+	subHeld    bool
 	subCancel    func()   // cancels the context of the submission in progress
 	cancelOnFail bool     // a failing issuer upload of this submission is a cancelled request (client gone)
 }
@@ -77,11 +81,17 @@ var errDead = errors.New("instance is dead")
 
 func (w *world) logf(in *instance, format string, a ...any) {
 	b := w.out
-	if in != nil && in.buf != nil {
+	if in != nil && in.buffering() {
 		b = in.buf
 	}
 	fmt.Fprintf(b, format, a...)
 	b.WriteByte('\n')
+}
+
+// buffering: the calling goroutine is the submitter whose operations are collected into one
+// EvSubmit (the sequencer goroutine of the same instance may run a round meanwhile)
+func (in *instance) buffering() bool {
+	return in.buf != nil && goid() == in.subGid
 }
 
 // gate serialises the operation, decides its fault, logs the step event, and returns the fault.
@@ -91,10 +101,12 @@ func (in *instance) gate(op opInfo) (fault, bool) {
 	if in.dead {
 		return fFail, false
 	}
-	if in.holdAt == in.nops {
+	if in.holdAt >= 0 && in.nops >= in.holdAt && !in.buffering() {
+		// the round (sequencer goroutine and its parallel tile uploads) is held; a submitter on the
+		// same instance goes on and advances nops meanwhile; released by holdAt = -1
 		in.held = true
 		w.cond.Broadcast()
-		for in.holdAt == in.nops && !in.dead {
+		for in.holdAt >= 0 && !in.dead {
 			w.cond.Wait()
 		}
 		in.held = false
@@ -102,7 +114,20 @@ func (in *instance) gate(op opInfo) (fault, bool) {
 			return fFail, false
 		}
 	}
-	if in.crashAt == in.nops && in.buf != nil {
+	if in.holdIssuer && in.buffering() && op.kind == "upload" && strings.HasPrefix(op.key, "issuer/") {
+		// a submitter is stopped inside its issuer upload (uploadIssuer holds no pool lock) while the
+		// sequencer of the same instance goes through a tick and a whole round
+		in.subHeld = true
+		w.cond.Broadcast()
+		for in.holdIssuer && !in.dead {
+			w.cond.Wait()
+		}
+		in.subHeld = false
+		if in.dead {
+			return fFail, false
+		}
+	}
+	if in.crashAt == in.nops && in.buffering() {
 		// the issuer operations of a submission are one event for the model: a crash is placed
 		// between events, so it is postponed past the submission
 		in.crashAt++
@@ -127,7 +152,7 @@ func (in *instance) gate(op opInfo) (fault, bool) {
 	if f != fOK {
 		in.nfaults++
 	}
-	if in.buf != nil {
+	if in.buffering() {
 		in.subFaults = append(in.subFaults, f)
 		return f, true
 	}
@@ -293,7 +318,7 @@ func (b simBackend) Upload(ctx context.Context, key string, data []byte, opts *c
 	if conflict {
 		return fmt.Errorf("immutable object %q already exists with different contents", key)
 	}
-	if f == fFail && b.in.buf != nil && b.in.cancelOnFail && b.in.subCancel != nil && strings.HasPrefix(key, "issuer/") {
+	if f == fFail && b.in.buffering() && b.in.cancelOnFail && b.in.subCancel != nil && strings.HasPrefix(key, "issuer/") {
 		// the submitter's request context is cancelled while the upload is in flight: a backend that
 		// honours the context (S3) reports the context's error and has stored nothing
 		b.in.subCancel()
